@@ -96,6 +96,7 @@ def main(modname):
     ap.add_argument('--replay', default=None)
     ap.add_argument('--jobs', type=int, default=int(os.environ.get('VERIF_JOBS', '16')))
     ap.add_argument('--only', default=None, help='substring filter on config json')
+    ap.add_argument('--stats', action='store_true', help='print per-configuration statistics')
     a = ap.parse_args()
     tier = a.tier if a.tier in ('quick', 'thorough') else 'quick'
     seed = int(os.environ.get('VERIF_SEED', '0') or 0)
@@ -130,6 +131,9 @@ def main(modname):
         with cf.ProcessPoolExecutor(max_workers=min(a.jobs, len(jobs))) as ex:
             results = list(ex.map(_run_config, jobs, chunksize=1))
 
+    if a.stats:
+        for r in sorted(results, key=lambda r: -r.get('wall_s', 0))[:25]:
+            print('  %.1fs paths=%s %s' % (r.get('wall_s', 0), r['stats'].get('paths'), json.dumps(r['cfg'], default=str)[:230]))
     known = load_known(pid)
     classify = getattr(mod, 'classify', None)
     totals = {}
